@@ -1107,7 +1107,42 @@ pub struct Subject {
 
 pub fn gen_subject(ctx: &Ctx, stream: u64, i: usize, growing: bool) -> Subject {
     let mut rng = ctx.rng(stream, i as u64);
-    match rng.weighted(&[5, 2, 6, 3]) {
+    match rng.weighted(&[5, 2, 6, 3, if growing { 3 } else { 0 }]) {
+        4 => {
+            // (C09 only) a coinductive trait whose generic impl leads back to the goal itself with an
+            // unknown (`impl<T> C for V<T> where T: C, ..`), next to conditions on a second trait that
+            // are decided, open or ambiguous for the unknown: the iteration's answer can grow by one
+            // constructor per round unless its size is checked — for definite and for ambiguous answers
+            let co = rng.chance(4, 5);
+            let mut text = String::from("struct A {}\nstruct B {}\nstruct V<T> {}\n");
+            text.push_str(if co { "#[coinductive] trait C {}\n" } else { "trait C {}\n" });
+            text.push_str("trait D {}\n");
+            let conds_pool = ["T: C", "T: D", "V<T>: D", "A: D", "V<T>: C"];
+            let nc = 1 + rng.usize_below(3);
+            let mut conds: Vec<&str> = vec!["T: C"];
+            for _ in 1..nc {
+                let c = conds_pool[rng.usize_below(conds_pool.len())];
+                if !conds.contains(&c) {
+                    conds.push(c);
+                }
+            }
+            for a in (1..conds.len()).rev() {
+                let b = rng.usize_below(a + 1);
+                conds.swap(a, b);
+            }
+            text.push_str(&format!("impl<T> C for V<T> where {} {{}}\n", conds.join(", ")));
+            if rng.chance(1, 3) {
+                text.push_str("impl C for A {}\n");
+            }
+            for (h, p) in [("impl D for A {}", 2u64), ("impl D for B {}", 1), ("impl<T> D for V<T> {}", 2), ("impl D for V<A> {}", 1), ("impl<T> D for V<T> where T: D {}", 1)] {
+                if rng.chance(p, 3) {
+                    text.push_str(h);
+                    text.push('\n');
+                }
+            }
+            let goals: Vec<String> = vec!["exists<X> { X: C }".into(), "exists<X> { V<X>: C }".into(), "exists<X> { X: D }".into(), "V<A>: C".into()];
+            Subject { text, goal_texts: goals, family: "co_unknown".into(), coinductive: co }
+        }
         3 => {
             // overlapping impls of a marker trait (progen::overlap_program): tables with several answers
             let (text, mut goals) = overlap_program(&mut rng);
@@ -1627,7 +1662,26 @@ pub fn oracle_c09(ctx: &Ctx, out: &mut Out, s: &Subject, rng: &mut Rng) {
     out.count("programs");
     out.count(&format!("subject_{}", s.family));
     let db: &dyn RustIrDatabase<ChalkIr> = &low.db;
-    let configs = if s.family == "corpus" { c09_configs_all() } else { c09_configs(rng) };
+    let configs = if s.family == "corpus" {
+        c09_configs_all()
+    } else if s.family == "co_unknown" {
+        // the answer of these goals legitimately grows up to max_size, one constructor per round of
+        // the fixed-point loop, and the work of a round grows with it (642 524 steps at the default
+        // max_size 30 for `impl<T> C for V<T> where V<T>: C, T: C`, 76 s in the debug REPL; it
+        // returns): small size limits keep a terminating run far below the work budget, so that
+        // exceeding the budget means the size limit no longer stops the growth
+        let caching = rng.chance(1, 2);
+        vec![
+            ("slg_max4".to_string(), SolverChoice::slg(4, None)),
+            ("recursive_max4_depth100".to_string(), SolverChoice::Recursive { overflow_depth: 100, caching_enabled: true, max_size: 4 }),
+            (
+                format!("recursive_max6_depth100{}", if caching { "" } else { "_nocache" }),
+                SolverChoice::Recursive { overflow_depth: 100, caching_enabled: caching, max_size: 6 },
+            ),
+        ]
+    } else {
+        c09_configs(rng)
+    };
     for (name, choice) in configs {
         for (gt, g) in &low.goals {
             let lab = format!("{} | C09 | {} | goal {}", name, s.text.replace('\n', " "), gt);
